@@ -20,6 +20,8 @@ import (
 	te "verifharness/internal/treeexp"
 )
 
+const pduTag = "valueExt,valueLB:0,valueUB:2"
+
 func seeds(seed int64, per int, out string) [][]byte {
 	g := &te.Gen{R: ev.Rng(seed, "total"), MaxList: 1, MaxStr: 12}
 	var w *ev.Writer
@@ -36,7 +38,10 @@ func seeds(seed int64, per int, out string) [][]byte {
 	for _, top := range tops {
 		vt := reflect.TypeOf(top.val)
 		for alt := 1; alt < vt.NumField(); alt++ {
-			for k := 0; k < per; k++ {
+			for k, tries := 0, 0; k < per && tries < 8*per; k, tries = k+1, tries+1 {
+				// rich seeds first (every IE list filled with several IEs), then minimal ones
+				g.MaxList = []int{4, 1, 8, 2}[k%4]
+				g.MinList = []int{5, 0, 3, 1}[k%4]
 				pdu := ngapType.NGAPPDU{Present: top.present}
 				pv := reflect.ValueOf(&pdu).Elem()
 				msg := pv.Field(top.present)
@@ -48,12 +53,14 @@ func seeds(seed int64, per int, out string) [][]byte {
 				m.Field(0).Field(0).SetInt(*ap.RefValue)
 				var b []byte
 				var err error
-				if p := ev.Catch(func() { b, err = ngap.Encoder(pdu) }); p != "" || err != nil || len(b) > 400 {
+				if p := ev.Catch(func() { b, err = ngap.Encoder(pdu) }); p != "" || err != nil || len(b) > 700 {
+					k-- // try again with other random values
 					continue
 				}
 				all = append(all, b)
 				if w != nil {
-					w.Emit(ev.M{"ev": "Seed", "id": id, "name": vt.Field(alt).Name, "bytes": ev.Ints(b)})
+					// the value tree lets the fault model place faults at the field boundaries of the encoding (Per!PerFieldStarts)
+					w.Emit(ev.M{"ev": "Seed", "id": id, "name": vt.Field(alt).Name, "bytes": ev.Ints(b), "tree": te.Export(pv, te.Parse(pduTag))})
 				}
 				id++
 			}
